@@ -236,6 +236,7 @@ def errName : Err → String
   | .insufficientFunds => "ErrInsufficientFunds" | .invalidWithdrawAddress => "ErrInvalidWithdrawAddress"
   | .invalidServiceName => "ErrInvalidServiceName" | .invalidRequest => "ErrInvalidRequest"
   | .invalidCoins => "ErrInvalidCoins" | .invalidAddress => "ErrInvalidAddress" | .unauthorized => "ErrUnauthorized"
+  | .invalidModuleService => "ErrInvalidModuleService"
 
 def resStr : Res → String
   | .ok => "R ok"
